@@ -71,6 +71,7 @@ fn compare<S: Sch>(
     proofs: &[Pf<S>],
     detail: &str,
     seeds: &[usize],
+    truth: &Evaluations<S::Pt, S::F>,
 ) {
     let (want, decs) = individual_and::<S>(keys, comms, qs, evals, proofs, rec.seed);
     let bp: BPf<S> = proofs.to_vec().into();
@@ -94,6 +95,13 @@ fn compare<S: Sch>(
             );
             break;
         }
+    }
+    // absolute expectation (the statement itself: wrong claims - single, several, cancelling - lead to rejection): a claim
+    // set that contains a false claim may not be accepted, even when the per-point verifier of the same library agrees
+    // with the batch verifier (shared code would otherwise hide a weakness of both)
+    let has_false = evals.iter().any(|(k, v)| truth.get(k) != Some(v));
+    if has_false && want && got.iter().any(|g| g.accepted()) {
+        rec.violation(&format!("C05/{}/batch_check/{}/false-claims-accepted-by-batch-and-individual-checks", S::NAME, opc), t_id, format!("{} {}: the claim set contains false claims, yet batch_check and every individual check accept", op, detail));
     }
     if got.iter().any(|g| g.accepted() != got[0].accepted()) {
         rec.violation(&format!("C05/{}/batch_check/{}/rng-dependent", S::NAME, opc), t_id, format!("{} {}: decision depends on the verifier RNG: {:?}", op, detail, got.iter().map(|d| d.short()).collect::<Vec<_>>()));
@@ -174,7 +182,7 @@ pub fn scheme<S: Sch + ProofMut>(rec: &mut Rec) {
                 }
             }
             let seeds: &[usize] = if mask.count_ones() <= 1 { &seeds3 } else { &seeds1 };
-            compare::<S>(rec, &id, "false-subset", &keys, &comms, &qs, &ev, &list, &format!("mask={:b}", mask), seeds);
+            compare::<S>(rec, &id, "false-subset", &keys, &comms, &qs, &ev, &list, &format!("mask={:b}", mask), seeds, &b.evals);
             if mask == 0 {
                 rec.sample(&format!("{}-c05", S::NAME), format!("{}: {} claims, all 2^{} false-subsets, cancelling pairs, proof-list edits", tid, ne, ne));
             }
@@ -193,7 +201,7 @@ pub fn scheme<S: Sch + ProofMut>(rec: &mut Rec) {
                     let mut ev = b.evals.clone();
                     *ev.get_mut(&ekeys[i]).unwrap() += d;
                     *ev.get_mut(&ekeys[j]).unwrap() -= d;
-                    compare::<S>(rec, &id, "cancelling-pair", &keys, &comms, &qs, &ev, &list, &format!("+{} at {}, -{} at {}", dn, i, dn, j), &seeds3);
+                    compare::<S>(rec, &id, "cancelling-pair", &keys, &comms, &qs, &ev, &list, &format!("+{} at {}, -{} at {}", dn, i, dn, j), &seeds3, &b.evals);
                 }
             }
         }
@@ -239,7 +247,7 @@ pub fn scheme<S: Sch + ProofMut>(rec: &mut Rec) {
                 if let Some(i) = false_at {
                     *ev.get_mut(&ekeys[i]).unwrap() += S::F::one();
                 }
-                compare::<S>(rec, &id, name, &keys, &comms, &qs, &ev, l, &format!("false claim at {:?}", false_at), &seeds1);
+                compare::<S>(rec, &id, name, &keys, &comms, &qs, &ev, l, &format!("false claim at {:?}", false_at), &seeds1, &b.evals);
             }
         }
     }
@@ -292,7 +300,7 @@ pub fn ipa_cross_key(rec: &mut Rec) {
                 };
                 let list: Vec<Pf<SIpa>> = b.proof.clone().into();
                 let comms: Vec<&LCm<SIpa>> = c.comms.iter().collect();
-                compare::<SIpa>(rec, &id, "short-rounds-from-smaller-key", &keys_big, &comms, &qs, &b.evals, &list, &format!("{}-round proofs under an 8-generator key", list[0].l_vec.len()), &[0, 1, 2]);
+                compare::<SIpa>(rec, &id, "short-rounds-from-smaller-key", &keys_big, &comms, &qs, &b.evals, &list, &format!("{}-round proofs under an 8-generator key", list[0].l_vec.len()), &[0, 1, 2], &b.evals);
             }
         }
     }
@@ -358,7 +366,7 @@ pub fn challenge_aware<S: Sch>(rec: &mut Rec, squeezes_per_poly: usize, leading_
                     *ev.get_mut(&(format!("q{}", i), labels[groups[i]].1.clone())).unwrap() += xi[j];
                     *ev.get_mut(&(format!("q{}", j), labels[groups[j]].1.clone())).unwrap() -= xi[i];
                     rec.count_points(1);
-                    compare::<S>(rec, &id, "challenge-aware-cancelling", &keys, &comms, &qs, &ev, &list, &format!("{} labels: delta(q{}) = xi_{}, delta(q{}) = -xi_{}", groups.len(), i, j, j, i), &[0, 1, 2]);
+                    compare::<S>(rec, &id, "challenge-aware-cancelling", &keys, &comms, &qs, &ev, &list, &format!("{} labels: delta(q{}) = xi_{}, delta(q{}) = -xi_{}", groups.len(), i, j, j, i), &[0, 1, 2], &b.evals);
                 }
             }
         }
